@@ -3,10 +3,12 @@ package props
 import (
 	"fmt"
 	"reflect"
+	"strings"
 	"testing"
 	"time"
 
 	z "github.com/Oudwins/zog"
+	"github.com/Oudwins/zog/zhttp"
 	"pgregory.net/rapid"
 
 	"verifharness/hh"
@@ -261,9 +263,66 @@ func genC19(rt *rapid.T, cfg model.GenCfg) c19Case {
 	return c
 }
 
+// propC19FE: a request handed to zhttp (form body or query string) is input data like any other: parsing it leaves
+// the request's parsed form as it was, and parsing the same request again gives the same result.
+func propC19FE(c c14Case) hh.Verdict {
+	v := hh.Verdict{}
+	for _, fe := range []string{model.FEForm, model.FEQuery} {
+		if len(c.FEs) > 0 && !contains(c.FEs, fe) {
+			continue
+		}
+		r, err := model.RenderFE(fe, c.Root, c.Logical)
+		if err != nil {
+			continue
+		}
+		c.Root.Number()
+		env := &model.Env{}
+		schema, typ := model.Build(c.Root, env)
+		req := r.Req
+		if err := req.ParseForm(); err != nil { // a handler may well have looked at the form before
+			r.Cleanup()
+			continue
+		}
+		snap := func() string {
+			return fmt.Sprintf("Form=%v PostForm=%v RawQuery=%q", model.SortedPairs(req.Form), model.SortedPairs(req.PostForm), req.URL.RawQuery)
+		}
+		before := snap()
+		var firstObs string
+		for run := 0; run < 3; run++ {
+			dest := reflect.New(typ)
+			res := model.Run(schema, env, model.Exec{Mode: "parse"}, zhttp.Request(req), dest)
+			if res.Panic != nil {
+				r.Cleanup()
+				return hh.Fail("[%s] panic: %v (input %s)", fe, res.Panic, r.Text)
+			}
+			if after := snap(); after != before {
+				r.Cleanup()
+				return hh.Fail("[%s] Parse modified the request it was given: before %s after %s", fe, before, after)
+			}
+			obs := fmtIss(res.Norm(true))
+			if res.NoIssues() {
+				obs += " dest=" + model.CanonJSON(dest.Elem())
+			}
+			if run == 0 {
+				firstObs = obs
+			} else if obs != firstObs {
+				r.Cleanup()
+				return hh.Fail("[%s] the same request parsed again gives a different result: first %s, run %d %s (input %s)", fe, firstObs, run, obs, r.Text)
+			}
+		}
+		r.Cleanup()
+		v.Classes = append(v.Classes, "fe:"+fe)
+		if strings.Contains(r.Text, "%5B%5D=") {
+			v.Nontrivial = true
+			v.Classes = append(v.Classes, "list-parameter")
+		}
+	}
+	return v
+}
+
 func TestC19(t *testing.T) {
 	h := hh.Start(t, "C19",
-		"cases = one schema (slice and primitive defaults, catch values, OneOf lists, Contains values, destination-mutating PostTransforms) and a history of 2-6 executions in both modes, some repeated verbatim; inputs are nested maps / slices, optionally behind one or two pointers, or Go values of the destination's own type (same pointer, slice and struct types as the destination); non-trivial = a slice default exists and an execution follows one whose destination was scribbled over, or the input holds nested maps/slices; distinct = FNV-1a of the case JSON",
+		"cases = one schema (slice and primitive defaults, catch values, OneOf lists, Contains values, destination-mutating PostTransforms) and a history of 2-6 executions in both modes, some repeated verbatim; inputs are nested maps / slices, optionally behind one or two pointers, requests handed to zhttp (form bodies and query strings with list parameters, parsed three times each), or Go values of the destination's own type (same pointer, slice and struct types as the destination); non-trivial = a slice default exists and an execution follows one whose destination was scribbled over, or the input holds nested maps/slices; distinct = FNV-1a of the case JSON",
 		"invariants after every step: deep snapshot of the input unchanged; deep snapshots of every reference-typed value handed to the schema at construction unchanged, also after the harness overwrites every part of the returned destination (incl. spare slice capacity); a verbatim repeated execution gives the same issues and destination as the first time; Validate leaves the value unchanged when the schema has no Default, Catch or PostTransform",
 		"schema-owned values are observed through the references the harness keeps (slice defaults, OneOf lists); value-typed defaults cannot be aliased and are covered by the repeated-execution clause")
 	defer h.Finish()
@@ -274,4 +333,8 @@ func TestC19(t *testing.T) {
 		cfg.MaxDepth, cfg.MaxFields, cfg.MaxElems = 4, 6, 5
 	}
 	hh.Sub(h, "histories", h.N(10000, 60000), func(rt *rapid.T) c19Case { return genC19(rt, cfg) }, propC19)
+	fcfg := model.DefaultCfg("parse")
+	fcfg.PPost, fcfg.PCatch, fcfg.PJunk, fcfg.PDefault = 0, 0.1, 0, 0.2
+	fcfg.PVary, fcfg.PAbsent, fcfg.PTestSat, fcfg.PZogTag, fcfg.MaxElems = 0.3, 0.25, 0.85, 0.2, 5
+	hh.Sub(h, "requests", h.N(4000, 30000), func(rt *rapid.T) c14Case { return genC14With(rt, fcfg, true, true) }, propC19FE)
 }
